@@ -21,8 +21,10 @@ import (
 // GenProg draws a program: 1-4 functions with 0-4 parameters, bodies of up
 // to 4 statements that may use globals directly, calls with fewer arguments
 // than parameters (the omitted ones being any mix of scalars and local
-// arrays), recursion.  Uses follow an intended typing most of the
-// time so that a good share of the programs is accepted.
+// arrays), recursion; arguments of calls and of length() in every form (bare
+// variable, parenthesised, inside an expression, an element, a constant).
+// Uses follow an intended typing most of the time so that a good share of the
+// programs is accepted.
 func GenProg(r *rand.Rand) *Prog {
 	nf := 1 + r.Intn(4)
 	const ng = 3
@@ -50,9 +52,20 @@ func GenProg(r *rand.Rand) *Prog {
 			np = p.Funcs[f-1].Np
 		}
 		if np > 0 && r.Intn(4) != 0 {
-			return Var{"L", 1 + r.Intn(np)}
+			return Var{Sc: "L", I: 1 + r.Intn(np)}
 		}
-		return Var{"G", 1 + r.Intn(ng)}
+		return Var{Sc: "G", I: 1 + r.Intn(ng)}
+	}
+	// a form for variable v (of function f) that fits the intended typing: an
+	// element when v is meant to be an array, (v) or v "" when it is a scalar
+	pickForm := func(f int, v Var) string {
+		if sloppy && r.Intn(3) == 0 {
+			return []string{"p", "e", "x"}[r.Intn(3)]
+		}
+		if intent[node(f, v)] {
+			return "x"
+		}
+		return []string{"p", "e"}[r.Intn(2)]
 	}
 	body := func(f int, maxLen int) []Stmt {
 		n := r.Intn(maxLen + 1)
@@ -66,11 +79,14 @@ func GenProg(r *rand.Rand) *Prog {
 					var a Var
 					for try := 0; try < 6; try++ {
 						if r.Intn(6) == 0 {
-							a = Var{"C", 0}
+							a = Var{Sc: "C"}
 						} else {
 							a = pickVar(f)
+							if r.Intn(4) == 0 { // an expression over the variable: a scalar value
+								a.Fm = pickForm(f, a)
+							}
 						}
-						arr := a.Sc != "C" && intent[node(f, a)]
+						arr := a.Form() == "v" && intent[node(f, a)]
 						if sloppy || r.Intn(8) == 0 || arr == intent[[2]int{g, j}] {
 							break
 						}
@@ -85,10 +101,17 @@ func GenProg(r *rand.Rand) *Prog {
 			if intent[node(f, v)] != (!sloppy && r.Intn(12) == 0) {
 				k = "a"
 			}
+			fm := ""
 			if r.Intn(6) == 0 {
 				k = "len"
+				switch r.Intn(8) {
+				case 0, 1, 2:
+					fm = pickForm(f, v)
+				case 3:
+					v = Var{Sc: "C"}
+				}
 			}
-			b = append(b, Stmt{K: k, V: &Var{v.Sc, v.I}})
+			b = append(b, Stmt{K: k, V: &Var{Sc: v.Sc, I: v.I, Fm: fm}})
 		}
 		return b
 	}
@@ -97,9 +120,18 @@ func GenProg(r *rand.Rand) *Prog {
 	}
 	p.Main = body(0, 5)
 	for g := 1; g <= ng; g++ {
-		p.Main = append(p.Main, Stmt{K: "len", V: &Var{"G", g}})
+		p.Main = append(p.Main, Stmt{K: "len", V: &Var{Sc: "G", I: g}})
 	}
 	return p
+}
+
+// varJSON always writes the form (Resolver.tla reads it of every variable reference).
+func varJSON(v Var) map[string]any {
+	fm := v.Fm
+	if fm == "" || v.Sc == "C" {
+		fm = "v"
+	}
+	return map[string]any{"sc": v.Sc, "i": v.I, "fm": fm}
 }
 
 func ProgJSON(p *Prog) map[string]any {
@@ -109,11 +141,11 @@ func ProgJSON(p *Prog) map[string]any {
 			if st.K == "call" {
 				args := []any{}
 				for _, a := range st.Args {
-					args = append(args, map[string]any{"sc": a.Sc, "i": a.I})
+					args = append(args, varJSON(a))
 				}
 				out = append(out, map[string]any{"k": "call", "f": st.F, "args": args})
 			} else {
-				out = append(out, map[string]any{"k": st.K, "v": map[string]any{"sc": st.V.Sc, "i": st.V.I}})
+				out = append(out, map[string]any{"k": st.K, "v": varJSON(*st.V)})
 			}
 		}
 		return out
@@ -215,7 +247,10 @@ func Observe(p *Prog, nm *Naming, order []int, mainLast bool) (map[string]any, e
 	for _, g := range gids {
 		e, ok := dt[""][nm.Global(g)]
 		if !ok {
-			return nil, fmt.Errorf("global %s missing from DebugTypes output:\n%s", nm.Global(g), dbg.String())
+			// the parser accepted the program without giving this variable a type: an observation (type "?")
+			// that Trace_Resolver rejects, not a failure of the driver
+			gs = append(gs, gi{g, -1, "?"})
+			continue
 		}
 		x, _ := strconv.Atoi(e[1])
 		gs = append(gs, gi{g, x, tcode[e[0]]})
@@ -233,7 +268,8 @@ func Observe(p *Prog, nm *Naming, order []int, mainLast bool) (map[string]any, e
 		for i := 1; i <= p.Funcs[f].Np; i++ {
 			e, ok := dt[nm.Func(f+1)][nm.Param(f+1, i)]
 			if !ok {
-				return nil, fmt.Errorf("parameter %s of %s missing from DebugTypes output:\n%s", nm.Param(f+1, i), nm.Func(f+1), dbg.String())
+				types = append(types, map[string]any{"f": f + 1, "i": i, "t": "?", "x": -1})
+				continue
 			}
 			x, _ := strconv.Atoi(e[1])
 			types = append(types, map[string]any{"f": f + 1, "i": i, "t": tcode[e[0]], "x": x})
